@@ -191,11 +191,14 @@ partial def loop (wt : WidthTable) (h : IO.FS.Stream) (d : DState) : IO Unit := 
   | ["eof"] =>
     -- the backend reported EOF: an incomplete control sequence has been read to the end and is
     -- dropped; an incomplete character stays unconsumed
-    let d' := match d.pending with
-      | b :: _ => if isPrintableByte b then d else { d with consumed := d.consumed + d.pending.length, pending := [] }
-      | [] => d
+    -- whatever is complete in the received bytes is interpreted first (an implementation that
+    -- reports the end of the stream with complete sequences unprocessed has lost them)
+    let (d0, evs0, _, _) := advance wt d (d.consumed + d.pending.length) [] []
+    let d' := match d0.pending with
+      | b :: _ => if isPrintableByte b then d0 else { d0 with consumed := d0.consumed + d0.pending.length, pending := [] }
+      | [] => d0
     (← IO.getStdout).putStrLn "T eof"
-    let d' ← printObs d' [] false
+    let d' ← printObs d' evs0 false
     loop wt h d'
   | ["key", flags, mok, app, code, rune, md, event, shifted, base, text] =>
     let tx := if text = "-" then [] else (text.splitOn ":").map String.toNat!
